@@ -30,10 +30,10 @@ MODELS = {
 def tasks(tier, seed):
     ts = []
     q = tier == 'quick'
-    for L in (1, 2, 3, 4, 5, 6) if q else (1, 2, 3, 4, 5, 6, 7):
+    for L in (1, 2, 3, 4, 5, 6) if q else (1, 2, 3, 4, 5, 6, 7, 8):
         ts.append(dict(name=f'ising_L{L}', model='ising', L=L, d=2))
         ts.append(dict(name=f'heisenberg_xxz_L{L}', model='heisenberg_xxz', L=L, d=2))
-    for L in (1, 2, 3, 4):
+    for L in (1, 2, 3, 4) if q else (1, 2, 3, 4, 5):
         ts.append(dict(name=f'heisenberg_xxz_spin1_L{L}', model='heisenberg_xxz_spin1', L=L, d=3))
     for d in (1, 2, 3, 4):
         for L in (1, 2, 3):
